@@ -155,12 +155,19 @@ WRAP:
 	for 1<<uint(t.Hour())&s.Hour == 0 {
 		if !added {
 			added = true
-			t = time.Date(t.Year(), t.Month(), t.Day(), t.Hour(), 0, 0, 0, loc)
+			// Not time.Date: in a period that a DST change repeats it can answer the first pass, an instant before t
+			t = t.Truncate(time.Minute)
 		}
 		// Advance to the start of the next hour on the wall clock. This is one hour unless a DST change of a
-		// fraction of an hour (for example Australia/Lord_Howe) left t in the middle of an hour.
+		// fraction of an hour (for example Australia/Lord_Howe) left t in the middle of an hour. Stop at the next
+		// change of the zone offset if that comes first: a change that is not on the hour (Pacific/Chatham) leaves
+		// a part of an hour behind it.
 		day := t.Day()
-		t = t.Add(time.Duration(60-t.Minute()) * time.Minute)
+		next := t.Add(time.Duration(60-t.Minute()) * time.Minute)
+		if _, end := t.ZoneBounds(); !end.IsZero() && end.Before(next) {
+			next = end
+		}
+		t = next
 
 		// A new day has begun (not necessarily at hour 0: midnight does not exist on a day whose DST change is at 00:00)
 		if t.Day() != day {
